@@ -611,3 +611,65 @@ fn u_parser_error_clamp_padded_n6() {
     kani::cover!(e.offset() < N);
     core::mem::forget(e);
 }
+
+// ---- M-number-visit (raw-number mode of both DOM drivers) -----------------------------------------
+
+struct RawNumProbe {
+    ptr: usize,
+    len: usize,
+    calls: u8,
+}
+
+impl<'de> JsonVisitor<'de> for RawNumProbe {
+    fn visit_raw_number(&mut self, v: &str) -> bool {
+        self.ptr = v.as_ptr() as usize;
+        self.len = v.len();
+        self.calls += 1;
+        true
+    }
+    fn visit_borrowed_raw_number(&mut self, v: &str) -> bool {
+        self.ptr = v.as_ptr() as usize;
+        self.len = v.len();
+        self.calls += 1;
+        true
+    }
+}
+
+/// C03/C08 M-number-visit: in raw-number mode both DOM drivers (in-place and copying) hand the
+/// visitor exactly the source span of the number literal - sign included - iff the literal is
+/// a grammatically valid number.
+#[kani::proof]
+#[kani::unwind(9)]
+#[kani::stub(crate::error::Error::syntax, crate::error::verif_kani_error::syntax_cut)]
+#[kani::stub(Parser::skip_number, model_skip_number)]
+fn m_number_visit_raw_n7() {
+    const N: usize = 7;
+    let buf: [u8; N] = kani::any();
+    let n: usize = kani::any();
+    kani::assume(n >= 1 && n <= N);
+    unsafe { setup(&buf, n) };
+    let start: usize = kani::any();
+    kani::assume(start < n);
+    let first = buf[start];
+    kani::assume(first == b'-' || is_digit(first));
+    let inplace: bool = kani::any();
+    let mut p = mk(&buf[..n]);
+    p.cfg.use_rawnumber = true;
+    p.read.set_index(start + 1);
+    let mut vis = RawNumProbe { ptr: 0, len: 0, calls: 0 };
+    let r = if inplace { p.parse_number_inplace(first, &mut vis) } else { p.parse_number_visit(first, &mut vis) };
+    match (&r, unsafe { tab(&NUM_END, start) }) {
+        (Ok(()), Some(e)) => {
+            assert_eq!(vis.calls, 1);
+            assert_eq!(vis.ptr, buf.as_ptr() as usize + start);
+            assert_eq!(vis.len, e - start);
+            assert_eq!(p.read.index(), e);
+        }
+        (Err(_), None) => assert_eq!(vis.calls, 0),
+        _ => panic!("raw-number capture differs from the number grammar"),
+    }
+    kani::cover!(r.is_ok() && first == b'-' && !inplace);
+    kani::cover!(r.is_ok() && first == b'-' && inplace && start > 0);
+    kani::cover!(r.is_err());
+    core::mem::forget(r);
+}
